@@ -458,7 +458,11 @@ func evalSearch(w cs.WAL, L *layout, d damage, h uint64, ignore bool, streamLen 
 		st["search/"+d.class+"/not-found"]++
 	}
 	if found && !written {
-		return append(vs, viol{"search:unwritten-marker-found:" + d.class, fmt.Sprintf("%s reports found on a %s image although no marker for height %d was written (%s)", who, d.class, h, d.desc)})
+		why := fmt.Sprintf("no marker for height %d was written", h)
+		if len(L.markers[int64(h)]) > 0 {
+			why = fmt.Sprintf("the marker for height %d is not completely in the log (torn)", h)
+		}
+		return append(vs, viol{"search:unwritten-marker-found:" + d.class, fmt.Sprintf("%s reports found on a %s image although %s (%s)", who, d.class, why, d.desc)})
 	}
 	if !found {
 		// "found iff completely written" is decidable for a correct implementation whenever everything up to the
